@@ -117,7 +117,9 @@ def instantiate_slice(fam, adecls, rng, prefix, lifts=1):
             out.append(VL.instantiate_int(ad, ad["ty"], "%s%04d" % (prefix, i)))
             signed = INT_TYPES[ad["ty"]][0] < 0
             tys = [t for t in INT_TYPES if (INT_TYPES[t][0] < 0) == signed and t != ad["ty"]]
-            rng.shuffle(tys)
+            # stratified: rotate through the widths so that every integer type is instantiated for many shapes
+            rot = i % len(tys)
+            tys = tys[rot:] + tys[:rot]
             n = 0
             for ty2 in tys:
                 if n >= lifts:
